@@ -9,6 +9,8 @@ tag="$1"; wt="/tmp/seed-$tag"; out="/tmp/seed-$tag-out"; skip="${2:-}"
 [ -f "$out/patch.diff" ] && [ -f "$out/demo.sh" ] && [ -f "$out/meta.json" ] || { echo "incomplete delivery in $out"; exit 2; }
 cd "$wt" || exit 2
 export CARGO_NET_OFFLINE=true
+# match the seeder's build settings so its warm build directory is reused
+if [ -z "$(ls -A "$wt/target/debug/incremental" 2>/dev/null)" ]; then export CARGO_INCREMENTAL=0 CARGO_PROFILE_DEV_DEBUG=0 CARGO_PROFILE_TEST_DEBUG=0; fi
 log="$out/confirm.log"; : > "$log"
 git checkout -- . ; git clean -fdq -e target
 bash "$out/demo.sh" "$wt" >> "$log" 2>&1; clean_rc=$?
@@ -20,6 +22,22 @@ suite_rc=-1; suite_tail=""
 if [ "$skip" != "--skip-suite" ]; then
   cargo nextest run --workspace --no-fail-fast --test-threads 8 --offline > "$out/suite.log" 2>&1; suite_rc=$?
   suite_tail=$(grep -E "Summary|tests run" "$out/suite.log" | tail -2 | tr '\n' ' ')
+  # failures that are NOT in the baseline's own always_fail / flaky / dropped-offline lists
+  new_fail=$(python3 - "$out/suite.log" <<'P'
+import json,re,sys
+b=json.load(open('/root/.vp/BASELINE.json'))
+allowed=set(b.get('always_fail',[]))|set(b.get('flaky',[]))|set(b.get('dropped_after_offline',[]))
+bad=set()
+for l in open(sys.argv[1],errors='replace'):
+    m=re.match(r'\s*(?:FAIL|SIGABRT|SIGSEGV|TIMEOUT|ABORT)\s+\[[^\]]*\]\s+(\S+)\s+(\S+)',re.sub(r'\x1b\[[0-9;]*m','',l))
+    if m:
+        n=m.group(1)+'::'+m.group(2)
+        if n not in allowed: bad.add(n)
+print(' '.join(sorted(bad)))
+P
+)
+  [ -z "$new_fail" ] && grep -q "tests run" "$out/suite.log" && suite_rc=0
+  [ -n "$new_fail" ] && echo "suite failures outside the baseline's known-failing lists: $new_fail"
 fi
 git checkout -- . ; git clean -fdq -e target
 echo "tag=$tag demo_clean_rc=$clean_rc demo_patched_rc=$patched_rc suite_rc=$suite_rc $suite_tail"
